@@ -34,6 +34,12 @@ OPS = ['sum', 'mean', 'min', 'max', 'variance', 'stddev', 'fvariance', 'fstddev'
 
 def expand(spec):
     if spec['kind'] == 'short':
+        if spec.get('npint'):
+            # fixed-width numpy integers (a uint8 / int8 column): only offered to min / max, whose result is one of the items
+            import numpy
+            t = getattr(numpy, spec['npint'])
+            lo, hi = int(numpy.iinfo(t).min), int(numpy.iinfo(t).max)
+            return [t(min(hi, max(lo, int(x) % (hi - lo + 1) + lo))) if isinstance(x, (int, float)) and x == x and abs(x) < 1e18 else t(0) for x in spec['xs']]
         if spec.get('numpy'):
             import numpy
             return [numpy.float64(x) if isinstance(x, float) else x for x in spec['xs']]       # values as they come out of pandas / numpy
@@ -84,7 +90,7 @@ class Exact(object):
         self.mx = None
 
     def add(self, x):
-        f = Fraction(x)
+        f = Fraction(x.item() if type(x).__module__ == 'numpy' else x)      # a Fraction built on a fixed-width numpy int would wrap
         self.n += 1
         self.s1 += f
         self.s2 += f * f
@@ -276,6 +282,8 @@ def case_gen(draw, long_max):
                 'shape': draw(st.sampled_from(['uniform', 'two-point', 'sorted', 'constant', 'alternating'])), 'seed': draw(st.integers(0, 10 ** 6))}
     mode = draw(st.sampled_from(['plain', 'store', 'grouped', 'windows']))
     case = {'data': data, 'op': draw(st.sampled_from(OPS)), 'km': draw(st.booleans()), 'mode': mode}
+    if case['op'] in ('min', 'max') and kind == 'short' and draw(st.integers(0, 2)) == 0:
+        data['npint'] = draw(st.sampled_from(['uint8', 'int8', 'uint16', 'int64']))
     if mode == 'grouped':
         case['nk'] = draw(st.integers(2, 3))
     if mode == 'windows':
